@@ -278,7 +278,9 @@ func streamVerparse(g *core.G) {
 		case 6: // bad first char / bad characters
 			// incl. characters that the unicode package classifies as digits / letters but the
 			// Policy alphabet does not contain (Arabic-Indic, Devanagari, fullwidth, mathematical digits)
-			bad := r.Pick([]string{"a", "~", ".", "+", "-", "_", "!", "\x80", "é", "/", "=", "\x00", "\u0663", "\u06f5", "\u0967", "\uff11", "\U0001d7d8", "\u00b2", "\u2160", "\u00aa", "\u03b1", "\uff21"})
+			bad := r.Pick([]string{"a", "~", ".", "+", "-", "_", "!", "\x80", "é", "/", "=", "\x00", "\u0663", "\u06f5", "\u0967", "\uff11", "\U0001d7d8", "\u00b2", "\u2160", "\u00aa", "\u03b1", "\uff21",
+				// runes that upper / lower / fold case into ASCII: KELVIN SIGN, dotted capital I, long s, dotless i, sharp S
+				"\u212a", "\u0130", "\u017f", "\u0131", "\u1e9e", "\u212b", "\ufb00"})
 			if r.Bool() {
 				emit(strings.Replace(s, u, bad+u, 1))
 			} else {
